@@ -270,3 +270,95 @@ Theorem C16_histc_handle_function_fixed :
     cbfun_of (hc_s C st') e a = cbfun_of (hc_s C st) e a'.
 Proof. exact histc_handle_function_fixed. Qed.
 Print Assumptions C16_histc_handle_function_fixed.
+
+(** ** ALL histories, ZBDD kind (HISTz, Mgr/HistoryZ.v): add_vars in any state of any history.  For ZBDDs
+    adding variables DOES change the Boolean view of a handle (new variables must be false) - what is
+    unchanged is the family of sets of variables.  The apply cache must not keep its Restrict entries
+    across add_vars ([cav_ok]): the example shows the wrong result the model (and the code) computes otherwise. *)
+From Coq Require Import Bool List NArith PArith FMapPositive.
+From OxiVerif Require Import DD.Sem DD.Build DD.Apply DD.ConfigApply DD.FamSpec DD.ZbddOps DD.ZbddOpsProofs DD.ZbddBool
+  DD.ZbddBoolProofs DD.ZbddEvalProofs Mgr.LevelSwapZ Mgr.LevelSwapZProofs Mgr.HistoryExamples
+  Mgr.HistoryZ Mgr.HistoryZBase Mgr.HistoryZFam Mgr.HistoryZProofs Mgr.HistoryZThms Mgr.HistoryZSpec Mgr.HistoryZTie
+  Mgr.HistoryZExamples.
+
+Theorem C16_histz_add_vars_keeps_families :
+  forall (gt : ref -> ref -> bool) (C : Type) (cget : C -> N -> list ref -> list nat -> option ref)
+  (cadd : C -> N -> list ref -> list nat -> ref -> C),
+  zlossy C cget cadd ->
+  forall cempty : C,
+  (forall (k : N) (a : list ref) (m : list nat), cget cempty k a m = None) ->
+  forall cav : C -> C,
+  cav_ok C cget cav ->
+  forall (st : hstate_z C) (k : nat) (st' : hstate_z C),
+  HInvZ C cget st ->
+  hstep_z gt C cget cadd cempty cav st (ZHAddVars k) = Some st' ->
+  HInvZ C cget st' /\
+  nlevels (hz_s C st') = nlevels (hz_s C st) + k /\
+  s_handles (hz_s C st') = s_handles (hz_s C st) /\
+  (forall (id : positive) (nd : node), find_node (hz_s C st) id = Some nd -> find_node (hz_s C st') id = Some nd) /\
+  (forall v : nat, v < nlevels (hz_s C st) -> nth_error (s_v2l (hz_s C st')) v = nth_error (s_v2l (hz_s C st)) v) /\
+  (forall i : nat, i < k -> nth_error (s_v2l (hz_s C st')) (nlevels (hz_s C st) + i) = Some (nlevels (hz_s C st) + i)) /\
+  (forall r : ref,
+  ref_ok (hz_s C st) r ->
+  ref_ok (hz_s C st') r /\
+  fam_of (hz_s C st') r = fam_of (hz_s C st) r /\
+  (forall a : asg, vmem (hz_s C st') r a <-> vmem (hz_s C st) r a) /\
+  (forall a : asg,
+  zbfun_of (hz_s C st') r a = zbfun_of (hz_s C st) r a && newfalse (nlevels (hz_s C st)) (nlevels (hz_s C st')) a)).
+Proof. exact histz_add_vars. Qed.
+Print Assumptions C16_histz_add_vars_keeps_families.
+
+(* along any history, however many variables are added meanwhile *)
+Theorem C16_histz_handle_family_fixed :
+  forall (gt : ref -> ref -> bool) (C : Type) (cget : C -> N -> list ref -> list nat -> option ref)
+  (cadd : C -> N -> list ref -> list nat -> ref -> C),
+  zlossy C cget cadd ->
+  forall cempty : C,
+  (forall (k : N) (a : list ref) (m : list nat), cget cempty k a m = None) ->
+  forall cav : C -> C,
+  cav_ok C cget cav ->
+  forall (ops : list zhop) (st st' : hstate_z C),
+  HInvZ C cget st ->
+  zhops_pre gt C cget cadd cempty cav st ops ->
+  hrun_z gt C cget cadd cempty cav st ops = Some st' ->
+  forall (x : N) (e : edge),
+  (forall o : zhop, In o ops -> zhdst o <> Some x) ->
+  hget (s_handles (hz_s C st)) x = Some e ->
+  hget (s_handles (hz_s C st')) x = Some e /\
+  ref_ok (hz_s C st') (eref e) /\
+  nlevels (hz_s C st) <= nlevels (hz_s C st') /\
+  (forall a : asg, vmem (hz_s C st') (eref e) a <-> vmem (hz_s C st) (eref e) a) /\
+  (forall a : asg,
+  zbfun_of (hz_s C st') (eref e) a =
+  zbfun_of (hz_s C st) (eref e) a && newfalse (nlevels (hz_s C st)) (nlevels (hz_s C st')) a).
+Proof. exact histz_slot_stable. Qed.
+Print Assumptions C16_histz_handle_family_fixed.
+
+(* a full flush and a Restrict-only invalidation satisfy the hypothesis, keeping every entry does not *)
+Theorem C16_histz_cav_instances :
+  cav_ok zacache zac_get zcavA /\ cav_ok zacache zac_get zcavR /\ ~ cav_ok zacache zac_get zcavI.
+Proof. exact (conj zcavA_ok (conj zcavR_ok zcavI_not_ok)). Qed.
+Print Assumptions C16_histz_cav_instances.
+
+(* restrict, add_vars, the same restrict: with a cache that keeps its entries the second call returns the first call's edge, which is not the cofactor; with a flushed cache it is *)
+Theorem C16_histz_example_stale_restrict :
+  hget (s_handles (hz_s zacache exz_stale)) 3 = hget (s_handles (hz_s zacache exz_stale)) 2 /\
+  bfun_eqb 3 (zbfun_of (hz_s zacache exz_stale) (zslot_ref zacache exz_stale 3))
+  (restrict_s ((1, true) :: (2, false) :: nil) (zbfun_of (hz_s zacache exz_stale) (zslot_ref zacache exz_stale 0))) =
+  false /\
+  hget (s_handles (hz_s zacache exz_flushed)) 3 <> hget (s_handles (hz_s zacache exz_flushed)) 2 /\
+  bfun_eqb 3 (zbfun_of (hz_s zacache exz_flushed) (zslot_ref zacache exz_flushed 3))
+  (restrict_s ((1, true) :: (2, false) :: nil) (zbfun_of (hz_s zacache exz_flushed) (zslot_ref zacache exz_flushed 0))) =
+  true.
+Proof. exact exz_restrict_stale. Qed.
+Print Assumptions C16_histz_example_stale_restrict.
+
+(* in the 31-call history the restrict after add_vars is computed afresh and is the cofactor *)
+Theorem C16_histz_example :
+  hget (s_handles (hz_s zacache exz_stA)) 23 <> hget (s_handles (hz_s zacache exz_stA)) 9 /\
+  bfun_eqb 4 (zbfun_of (hz_s zacache exz_stA) (zslot_ref zacache exz_stA 23))
+  (restrict_s ((0, true) :: (2, false) :: (3, false) :: nil)
+  (zbfun_of (hz_s zacache exz_stA) (zslot_ref zacache exz_stA 5))) = true.
+Proof. exact exz_restrict_fresh. Qed.
+Print Assumptions C16_histz_example.
+
